@@ -1141,6 +1141,14 @@ def ia_stream(ctx):
         rep = {"cuts": _c05.cuts_txt(cuts), "monitor": mon, "semantics": sem, "io": io, "spec": text, "formula": F.to_proto(f), "transformed": F.to_proto(tf),
                "signals": sig_rep(sig), "impl": out}
         if out[0] != "ok":
+            # inf - inf (iff / xor / arithmetic over the +-inf of two insensitive predicates) is NaN in the code and undefined in the
+            # semantics (DESIGN 2.1): where a sub-formula of the transformed formula takes the value NaN the driver reports every
+            # model value as NaN, and what the monitor does there - also an exception out of a comparison with NaN - is not judged
+            qs0 = [q for q in query_times(sig, f, [], dom, end) if dom <= q <= end]
+            (vals0, _, _), = model_query([(tf, sig, qs0)])
+            if any(v_ is not None and v_ != v_ for v_ in vals0):
+                ctx.count("ia-c:raised-where-undefined(nan)")
+                continue
             ctx.violations.append(Violation("dense %s monitor, %s semantics, io=%r raised %r: %s" % (mon, sem, io, out[1:], text), rep,
                                             stream="ia-c"))
             if len(ctx.violations) >= 3:
@@ -1218,6 +1226,13 @@ def check_ia(ctx, mon, f, sig, sem, io, cuts=()):
     rep = {"monitor": mon, "semantics": sem, "io": io, "spec": text, "formula": F.to_proto(f), "transformed": F.to_proto(tf),
            "signals": sig_rep(sig), "impl": out}
     if out[0] != "ok":
+        (_, dom0, end0), = model_query([(f, sig, [])])
+        if end0 is None:
+            end0 = max([s_[-1][0] for s_ in sig.values()] + [dom0])
+        qs0 = [q for q in query_times(sig, f, [], dom0, end0) if dom0 <= q <= end0]
+        (vals0, _, _), = model_query([(tf, sig, qs0)])
+        if any(v_ is not None and v_ != v_ for v_ in vals0):
+            return None          # inf - inf somewhere: undefined (see ia_stream)
         return Violation("dense %s monitor, %s semantics, io=%r raised %r: %s" % (mon, sem, io, out[1:], text), rep, stream="ia-c")
     a = samples_of(out[1])
     if not a:
